@@ -51,13 +51,17 @@ def group_validate_cases(cases, seed):
         g["cands"].sort(key=lambda x: json.dumps(x["cand"], sort_keys=True))
         # free choices of the concretiser, derived from the seed and the declaration
         h = random.Random("%d|%s" % (seed, k))
-        g["opts"] = {"anchor": h.random() < 0.5, "markForm": h.random() < 0.5, "enumNums": False}
+        g["opts"] = {"anchor": h.random() < 0.5, "markForm": h.random() < 0.5, "enumNums": False, "siblings": h.random() < 0.5}
         out.append(g)
         if g["decl"]["kind"] == "enum":
             # the same declaration over an enum whose options carry explicit numbers (number = position)
             g2 = json.loads(json.dumps(g))
             g2["opts"]["enumNums"] = True
             out.append(g2)
+            # ... and over an enum that declares its zero option under its full name (COLOR_UNSPECIFIED)
+            g3 = json.loads(json.dumps(g))
+            g3["opts"]["zeroPrefixed"] = True
+            out.append(g3)
     return out
 
 
@@ -230,14 +234,17 @@ def reflect_cases(raw, seed):
         h = random.Random("%d|%s" % (seed, k))
         g = {"decl": c["decl"], "expect": c["expect"],
              "opts": {"anchor": h.random() < 0.5, "markForm": h.random() < 0.5, "enumNums": False,
-                      "acroName": h.random() < 0.5}}
+                      "acroName": h.random() < 0.5, "siblings": h.random() < 0.5}}
         out.append(g)
         d = c["decl"]
         if d["kind"] == "enum" and (d["in"] or d["notIn"]):
             g2 = json.loads(json.dumps(g))
             g2["opts"]["enumNums"] = True
             out.append(g2)
-    out.sort(key=lambda g: decl_key(g["decl"]) + str(g["opts"]["enumNums"]))
+            g3 = json.loads(json.dumps(g))
+            g3["opts"]["zeroPrefixed"] = True
+            out.append(g3)
+    out.sort(key=lambda g: decl_key(g["decl"]) + str(g["opts"]["enumNums"]) + str(g["opts"].get("zeroPrefixed")))
     return out
 
 
